@@ -919,8 +919,10 @@ func (p *parser) extractMods(t, outm []byte) ([]byte, []mod, bool) {
 		}
 		for i := idx; i < len(chunks); i++ {
 			if m := reMod.FindSubmatch(chunks[i]); m != nil {
-				fnName := byteconv.B2S(m[1])
-				fn := GetModFn(byteconv.B2S(m[1]))
+				// Blanks around the name belong to the spelling of the chain, not to the name: "x| he" is "x|he".
+				name := bytealg.Trim(m[1], space)
+				fnName := byteconv.B2S(name)
+				fn := GetModFn(fnName)
 				if fn == nil {
 					continue
 				}
@@ -929,7 +931,7 @@ func (p *parser) extractMods(t, outm []byte) ([]byte, []mod, bool) {
 				}
 				args := p.extractArgs(m[2])
 				mods = append(mods, mod{
-					id:  m[1],
+					id:  name,
 					fn:  fn,
 					arg: args,
 				})
